@@ -794,6 +794,9 @@ pub fn run(ctx: &Ctx) -> i32 {
             if rf.engine == "queueaccept" {
                 return replay_one(ctx, &crate::engines::socksrv::QueueAcceptEngine, &rf);
             }
+            if rf.engine == "sigedge" {
+                return replay_one(ctx, &crate::engines::sigedge::SigEdgeEngine, &rf);
+            }
             if rf.engine == "makegate" {
                 return replay_one(ctx, &crate::engines::socksrv::MakeGateEngine, &rf);
             }
@@ -869,6 +872,8 @@ pub fn run(ctx: &Ctx) -> i32 {
             total.merge(run_generated(ctx, &engine, "signal-sweep", move || secured(held(c07_strategy(max_reqs.min(8)))), ctx.cases(30_000, 1_500_000), 300));
             // a make-service that takes its time (pending future, pending poll_ready) when the signal resolves
             total.merge(run_generated(ctx, &crate::engines::socksrv::MakeGateEngine, "slow-make-service", crate::engines::socksrv::makegate_strategy, ctx.cases(6_000, 200_000), 200));
+            // raw clients whose request is written in the very instant of the signal (same scheduler turn)
+            total.merge(run_generated(ctx, &crate::engines::sigedge::SigEdgeEngine, "signal-on-the-edge-of-a-request", crate::engines::sigedge::strategy, ctx.cases(10_000, 400_000), 200));
             // the signal resolves synchronously in the middle of an accept burst (one poll of the server)
             total.merge(run_generated(ctx, &engine, "signal-during-accept-burst", move || secured(c07_burst_strategy(max_reqs.min(8))), ctx.cases(8_000, 400_000), 300));
             (
